@@ -17,8 +17,9 @@ TSPEC, TCFG = "BlockTrace.tla", "BlockTrace.cfg"
 
 QUICK_CFGS = [("Block_qa.cfg", 900), ("Block_qb.cfg", 900), ("Block_qc.cfg", 600), ("Block_qp.cfg", 600),
               ("Block_ql.cfg", 900)]
-THOROUGH_CFGS = [("Block_ta.cfg", 3000), ("Block_tb.cfg", 3000), ("Block_tc.cfg", 3000), ("Block_tf.cfg", 3000),
-                 ("Block_tl.cfg", 3000)]
+# longest first (the liveness run is single-threaded in its temporal part)
+THOROUGH_CFGS = [("Block_tl.cfg", 3000), ("Block_tf.cfg", 3000), ("Block_tc.cfg", 3000), ("Block_tb.cfg", 3000),
+                 ("Block_ta.cfg", 3000), ("Block_tg.cfg", 3000)]
 
 # (mutant, base config, invariants that state the broken part of the property, what it models)
 MUTANTS = [
@@ -57,8 +58,8 @@ def _mut_cfg(mut, base, invs):
 
 
 def _model_jobs(tier):
-    cfgs = QUICK_CFGS if tier == "quick" else QUICK_CFGS + THOROUGH_CFGS
-    big = {"Block_ta.cfg", "Block_tb.cfg", "Block_tc.cfg"}
+    cfgs = QUICK_CFGS if tier == "quick" else THOROUGH_CFGS + QUICK_CFGS
+    big = {"Block_ta.cfg", "Block_tb.cfg", "Block_tc.cfg", "Block_tf.cfg"}
     jobs = []
     for cfg, to in cfgs:
         jobs.append(("model", cfg, lambda cfg=cfg, to=to: tlc_must_pass(
